@@ -963,6 +963,29 @@ def cross(tier):
     out["c02"] += [T("x_calc_attribute_then_keep", keep(calc("DS_1", [("attribute", "At_9", binop("||", "Id_2", const("x")))]), ["Me_1"]), n),
                    T("x_sub_two_ids", sub("DS_7", [("Id_2", "a"), ("Id_3", 1)]), n),
                    T("x_keep_then_rename_then_calc", calc(rename(keep("DS_1", ["Me_1"]), [("Me_1", "Me_7")]), [(None, "Me_9", binop("*", "Me_7", 2))]), n)]
+    # datasets that carry a (non-viral) attribute: element-wise operators, aggregations and set operators drop it, clauses keep it
+    AT = POOL + [structure("DS_A", [("Id_1", "Integer", I, False), ("Id_2", "String", I, False), ("Me_1", "Integer", M, True), ("At_1", "String", "Attribute", True)]),
+                 structure("DS_A2", [("Id_1", "Integer", I, False), ("Id_2", "String", I, False), ("Me_1", "Integer", M, True), ("At_1", "String", "Attribute", True)])]
+    A = lambda tid, e, rows=n: T(tid, e, rows, structs=AT)  # noqa: E731
+    out["c01"] += [A("a_plus_ds", binop("+", "DS_A", "DS_A2")), A("a_plus_plain", binop("+", "DS_A", "DS_4")), A("a_plain_plus", binop("+", "DS_4", "DS_A")),
+                   A("a_times_sc", binop("*", "DS_A", 2)), A("a_abs", unop("abs", "DS_A")), A("a_gt_sc", binop(">", "DS_A", 0)),
+                   A("a_isnull", unop("isnull", "DS_A")), A("a_nvl", binop("nvl", "DS_A", 0)), A("a_if", if_(binop(">", "DS_A", 0), "DS_A", "DS_A2")),
+                   A("a_plus_of_times", binop("+", binop("*", "DS_A", 2), "DS_A2"))]
+    out["c02"] += [A("a_filter", filter_("DS_A", gt0)), A("a_calc", calc("DS_A", [(None, "Me_9", binop("+", "Me_1", 1))])),
+                   A("a_calc_from_attr", calc("DS_A", [(None, "Me_9", binop("||", "At_1", "Id_2"))])), A("a_keep_measure", keep("DS_A", ["Me_1"])),
+                   A("a_keep_attr", keep("DS_A", ["At_1"])), A("a_drop_attr", drop("DS_A", ["At_1"])), A("a_rename_attr", rename("DS_A", [("At_1", "At_9")])),
+                   A("a_filter_on_attr", filter_("DS_A", binop("=", "At_1", const("a")))), A("a_sub", sub("DS_A", [("Id_2", "a")])),
+                   A("a_calc_on_binop", calc(binop("*", "DS_A", 2), [(None, "Me_9", binop("+", "Me_1", 1))])),
+                   A("a_calc_on_unary", calc(unop("abs", "DS_A"), [(None, "Me_9", binop("+", "Me_1", 1))])),
+                   A("a_calc_on_round", calc(paramop("round", ["DS_A"], [1]), [(None, "Me_9", binop("+", "Me_1", 1))])),
+                   A("a_filter_on_isnull", filter_(unop("isnull", "DS_A"), "bool_var")),
+                   A("a_calc_attr_role_on_binop", calc(binop("*", "DS_1", 2), [("attribute", "Me_2", "Me_2")]))]
+    out["c03"] += [A("a_sum_by", agg("sum", "DS_A", "group by", ["Id_1"]), 3), A("a_count_all", agg("count", "DS_A"), 3),
+                   A("a_aggr_clause", aggr("DS_A", [("measure", "Me_9", "max", "Me_1")], "group by", ["Id_2"]), 3)]
+    out["c04"] += [A("a_join_inner", join("inner_join", [("DS_A", "d1"), ("DS_K", "d2")])), A("a_join_left_keep", jbody(join("left_join", [("DS_A", "d1"), ("DS_K", "d2")]), lambda j: keep(j, ["Me_1", "At_1"])))]
+    out["c05"] += [A("a_union", setop("union", ["DS_A", "DS_A2"])), A("a_setdiff", setop("setdiff", ["DS_A", "DS_A2"])), A("a_symdiff", setop("symdiff", ["DS_A", "DS_A2"])),
+                   A("a_exists_in", exists_in("DS_A", "DS_A2", "all"))]
+    out["c06"] += [A("a_an_sum", analytic("sum", "DS_A", partition_by=["Id_1"]), 3)]
     # validation over other families
     out["c07"] += [T("x_check_of_binop_cmp", check(binop(">", binop("+", "DS_4", "DS_5"), 0), error_code="E1", error_level=2), n, structs=POOL),
                    T("x_check_of_agg_cmp", check(binop(">", s4(), 0), invalid=True), 3, structs=POOL),
